@@ -29,6 +29,7 @@ struct Obj {
   virtual size_t ncont() { return 0; }                 // continuation operations (deterministic given the installed tape)
   virtual std::string cont_name(size_t) { return ""; }
   virtual void cont(size_t) {}
+  virtual void exercise() {}                           // further use of an accepted object (other serialization formats, conversions, iteration)
 };
 typedef std::unique_ptr<Obj> ObjP;
 typedef std::function<void(const std::string& label, Obj& o)> StateCb;
